@@ -318,6 +318,25 @@ theorem stats_layout_follows_source (o : Opts) (nDb nLog : Nat) (first last : Op
   unfold App.statsOutput
   simp only [List.append_assoc]
 
+/-- `summary` is `summaryTemplate` over the literal pieces the source has now (after the date, between value and name of a total
+    row, the rule line, between value and name of a food row; read by `tools/facts`). -/
+theorem summary_layout_follows_template (cfg : RCfg) (d : LogDay) (db : Book) :
+    renderSummary cfg d db =
+      (let P := fun i => Facts.summaryPieces.getD i []
+       Date.format cfg.dateLayout d.date ++ P 0
+       ++ (match (reportItem db cfg d).2 with
+           | none => []
+           | some ts => (ts.map (fun t => [10] ++ fmtVal cfg.color t.pos ++ P 1 ++ t.name)).flatten)
+       ++ [10] ++ P 2
+       ++ ((reportItem db cfg d).1.map (fun el => [10] ++ fmtVal cfg.color el.value ++ P 3 ++ el.name)).flatten
+       ++ [10]) := by
+  have h0 : Facts.summaryPieces.getD 0 [] = [32, 58] := by decide
+  have h1 : Facts.summaryPieces.getD 1 [] = [32, 58, 32] := by decide
+  have h2 : Facts.summaryPieces.getD 2 [] = dashes 12 := by decide
+  have h3 : Facts.summaryPieces.getD 3 [] = [32, 58, 32] := by decide
+  simp only [h0, h1, h2, h3, renderSummary]
+  cases (reportItem db cfg d).snd <;> rfl
+
 /-- every regenerated format of the period reporters, the balance reporters and `print` uses only modelled verbs, and number
     verbs exactly where the call passes a number -/
 theorem formats_well_typed :
